@@ -13,47 +13,13 @@ Record obs := Obs {
   o_rt : list entry                                       (* entries of a second Args after ParseBytes(QueryString()) *)
 }.
 
-(* The same observation in packed form (Coq elaborates one long literal much faster than a tree of
-   tuples and lists).  A packed list of byte strings is the concatenation of <len-hi><len-lo><bytes>.
-     p_all / p_rt : packed [k1; v1; k2; v2; ...]      p_nov / p_rtnov : one byte (0/1) per entry
-     p_probe      : packed, per probe key: [nil?; has?; count] ; Peek result ; the count PeekMulti items *)
-Record pobs := PObs { p_len : Z; p_all : bytes; p_nov : bytes; p_qs : bytes; p_probe : bytes; p_rt : bytes; p_rtnov : bytes }.
-
-Fixpoint unpack_fuel (fuel : nat) (s : bytes) : list bytes :=
-  match fuel with
-  | O => []
-  | S f => match s with
-           | hi :: lo :: r => let n := N.to_nat (256 * hi + lo) in firstn n r :: unpack_fuel f (skipn n r)
-           | _ => []
-           end
-  end.
-Definition unpack (s : bytes) : list bytes := unpack_fuel (length s) s.
-Fixpoint pairs (l : list bytes) : list (bytes * bytes) :=
-  match l with k :: v :: r => (k, v) :: pairs r | _ => [] end.
-Definition flags (s : bytes) : list bool := map (fun b => b =? 1) s.
-Fixpoint unpack_probes (fuel : nat) (l : list bytes) : list (option bytes * list bytes * bool) :=
-  match fuel with
-  | O => []
-  | S f => match l with
-           | [nilf; hasf; cnt] :: pk :: r =>
-               let n := N.to_nat cnt in
-               ((if nilf =? 1 then None else Some pk), firstn n r, hasf =? 1) :: unpack_probes f (skipn n r)
-           | _ => []
-           end
-  end.
 Fixpoint zip_entries (l : list (bytes * bytes)) (n : list bool) : list entry :=
   match l, n with
   | (k, v) :: l', f :: n' => (k, v, f) :: zip_entries l' n'
   | _, _ => []
   end.
-Definition unpack_obs (p : pobs) : obs :=
-  let pr := unpack (p_probe p) in
-  Obs (p_len p) (pairs (unpack (p_all p))) (flags (p_nov p)) (p_qs p) (unpack_probes (length pr) pr)
-      (zip_entries (pairs (unpack (p_rt p))) (flags (p_rtnov p))).
-
 Inductive c28case :=
 | CSeq (probe : list bytes) (steps : list (op * obs))
-| CSeqP (probe : bytes) (steps : list (op * pobs))         (* packed probe keys and observations *)
 | CRaw (raw : bytes) (parsed : list entry) (qs : bytes) (reparsed : list entry).
 
 Definition entries (a : args) : list entry := map (fun kv => (kv_key kv, kv_value kv, kv_noValue kv)) (live a).
@@ -89,7 +55,6 @@ Fixpoint corr_steps (probe : list bytes) (a b : args) (steps : list (op * obs)) 
 Definition corr_ok (c : c28case) : bool :=
   match c with
   | CSeq probe steps => corr_steps probe emptyArgs emptyArgs steps
-  | CSeqP probe steps => corr_steps (unpack probe) emptyArgs emptyArgs (map (fun x => (fst x, unpack_obs (snd x))) steps)
   | CRaw raw parsed qs reparsed =>
       match ParseBytes emptyArgs raw with
       | Some a => mmap_eqb (entries a) parsed && beq (QueryString a) qs
@@ -141,6 +106,5 @@ Fixpoint prop_steps (probe : list bytes) (m : mmap) (steps : list (op * obs)) : 
 Definition prop_ok (c : c28case) : bool :=
   match c with
   | CSeq probe steps => prop_steps probe [] steps
-  | CSeqP probe steps => prop_steps (unpack probe) [] (map (fun x => (fst x, unpack_obs (snd x))) steps)
   | CRaw raw parsed qs reparsed => mmap_eqb reparsed (mm_roundtrip parsed)
   end.
